@@ -8,7 +8,7 @@ statement (F<i>S<j>Action) so an observed Start/Stop event identifies its owner.
 import collections
 
 
-def gen_hierarchy(rng, max_flows=5, depth_bias=False, with_groups=True, with_when=True, alphabet=3, with_vars=False, loops=False, main_kids_first=False):
+def gen_hierarchy(rng, max_flows=5, depth_bias=False, with_groups=True, with_when=True, alphabet=3, with_vars=False, loops=False, main_kids_first=False, ext_end=False):
     n = rng.randint(2, max_flows)
     children = collections.defaultdict(list)
     for i in range(1, n + 1):
@@ -26,6 +26,8 @@ def gen_hierarchy(rng, max_flows=5, depth_bias=False, with_groups=True, with_whe
         kids = list(children[i])
         k = rng.randint(1, 4) + len(kids)
         kinds = ["match", "act", "actwait", "match"] + (["actor"] if with_groups else [])
+        if ext_end:
+            kinds.append("extend")  # a flow ends ANOTHER (possibly waiting) flow from the outside: FinishFlow / StopFlow
         slots = ["kid"] * len(kids) + [rng.choice(kinds) for _ in range(k - len(kids))]
         rng.shuffle(slots)
         if i == 0 and main_kids_first:
@@ -77,6 +79,11 @@ def gen_hierarchy(rng, max_flows=5, depth_bias=False, with_groups=True, with_whe
                 # or-/and-group written directly over actions: forked heads sit on actionable elements themselves
                 acts += 2
                 lines.append("  await F%dS%dAction() %s F%dS%dAction()" % (i, acts - 1, rng.choice(["or", "or", "and"]), i, acts))
+            elif sl == "extend":
+                others = [j for j in range(1, n + 1) if j != i]
+                if others:
+                    lines.append("  match E%d()" % rng.randint(1, alphabet))
+                    lines.append('  send %s(flow_id="%s")' % (rng.choice(["FinishFlow", "FinishFlow", "StopFlow"]), fname(rng.choice(others))))
             elif sl == "actwait":
                 acts += 1
                 lines.append("  start F%dS%dAction() as $a%d" % (i, acts, acts))
